@@ -593,6 +593,53 @@ static void body(void *arg)
     if (!w->stat && __sync_add_and_fetch(&g_ndone, 1) == g_nu - g_ns)
         CHK(ABT_eventual_set(g_evdone, NULL, 0));
 }
+/* second life of a revived unit */
+static void rev_body(void *arg)
+{
+    wu_t *w = (wu_t *)arg;
+    EV("\"e\":\"Begin\",\"t\":%d", w->id);
+    if (w->kind == 0 && rnd(2))
+        CHK(ABT_thread_yield());
+    EV("\"e\":\"Finish\",\"t\":%d", w->id);
+}
+/* A terminated unit is revived into another user-defined pool; the pool may refuse to create
+ * the unit, in which case the revival must fail without a trace (no push, no run). */
+static void revive_some(void)
+{
+    for (int i = g_ns + 1; i <= g_nu; i++) {
+        wu_t *w = &U[i];
+        if (g_reaped[i] || !w->made || w->th == ABT_THREAD_NULL || rnd(3))
+            continue;
+        CHK(ABT_thread_join(w->th));
+        ABT_pool cur = ABT_POOL_NULL;
+        CHK(ABT_thread_get_last_pool(w->th, &cur));
+        int q = rnd(NP);
+        if (w->kind != 0) {
+            /* waiting for a tasklet is polling: it must live in the pool the waiting primary ULT
+             * polls in, or a scheduler that scans its pools in order never reaches it */
+            ABT_pool mine = ABT_POOL_NULL;
+            CHK(ABT_self_get_last_pool(&mine));
+            for (q = 0; q < NP && P[q] != mine; q++)
+                ;
+            if (q == NP || P[q] == cur)
+                continue;
+        }
+        if (P[q] == cur)
+            q = (q + 1) % NP;
+        for (int attempt = 0;; attempt++) {
+            if (g_fail && attempt == 0 && rnd(2))
+                g_failn[q] = 1;
+            EV("\"e\":\"UReviveCall\",\"t\":%d,\"p\":%d", i, q);
+            int r = w->kind == 0 ? ABT_thread_revive(P[q], rev_body, w, &w->th) : ABT_task_revive(P[q], rev_body, w, &w->th);
+            g_failn[q] = 0;
+            EV("\"e\":\"URevive\",\"t\":%d,\"p\":%d,\"ret\":%d", i, q, r != ABT_SUCCESS);
+            if (r == ABT_SUCCESS)
+                break;
+            if (attempt > 3)
+                CHK(r);
+        }
+    }
+}
 static void create_unit_of(wu_t *w, int by)
 {
     if (!__sync_bool_compare_and_swap(&g_claim[w->id], 0, 1))
@@ -710,6 +757,7 @@ static void scenario(const char *name, uint64_t seed)
     CHK(ABT_eventual_wait(g_evdone, NULL));
     g_release = 1;
     CHK(ABT_eventual_set(g_ev, NULL, 0));
+    revive_some();
     for (int i = 1; i <= g_nu; i++) {
         if (g_reaped[i])
             continue; /* freed by another unit */
